@@ -80,12 +80,16 @@ static void* grower(void* p) { mInstance* i = (mInstance*)p; int k; pthread_barr
 /* child instances created WHILE other threads are inside memory.grow / memory.size (what thread-spawn does): creating one must not
  * touch the state of the shared memory's descriptor */
 static void* spawner(void* p) { int k; (void)p; pthread_barrier_wait(&bar); for (k = 0; k < N / 4 + 1; k++) { mInstance* c = (mInstance*)root.common.newChild((wasmModuleInstance*)&root); (void)m_size(c); } return NULL; }
+/* bulk data accesses (memory.init from a passive segment, memory.fill, memory.copy) inside page 0 while other threads grow */
+static int bulkno;
+static void* bulk(void* p) { mInstance* i = (mInstance*)p; int k; U32 base = 60000 + 1000 * (U32)__sync_fetch_and_add(&bulkno, 1);   /* a region of its own: the guest program itself is race-free */
+    pthread_barrier_wait(&bar); for (k = 0; k < N; k++) { m_init(i, base + (U32)(k % 4) * 16, (U32)(k % 8), 8); m_fill(i, base + 100, (U32)k, 32); m_copy(i, base + 200, base + 100, 32); } return NULL; }
 static void* user(void* p) { mInstance* i = (mInstance*)p; int k; U32 acc = 0; pthread_barrier_wait(&bar); for (k = 0; k < N; k++) { m_store32(i, 64, (U32)k); acc += m_load32(i, 64); acc += m_size(i); } return (void*)(size_t)acc; }
 int main(int argc, char** argv) {
     pthread_t th[8]; int t, T = atoi(argv[1]); N = atoi(argv[2]); (void)argc;
     mInstantiate(&root, VF_RESOLVER);
     pthread_barrier_init(&bar, NULL, (unsigned)T);
-    for (t = 0; t < T; t++) pthread_create(&th[t], NULL, t % 4 == 3 ? spawner : (t % 2 ? user : grower), root.common.newChild((wasmModuleInstance*)&root));
+    for (t = 0; t < T; t++) pthread_create(&th[t], NULL, t == 3 ? spawner : (t % 4 == 2 ? bulk : (t % 2 && t != 7 ? user : grower))   /* one spawner: every child creation copies the active segment again */, root.common.newChild((wasmModuleInstance*)&root));
     for (t = 0; t < T; t++) pthread_join(th[t], NULL);
     printf("pages %u\n", m_memory(&root)->pages);
     return 0;
